@@ -71,7 +71,13 @@ func (r *Real64) Max(a, b ConstScalar) Scalar {
 func (c *Real64) Abs(a ConstScalar) Scalar {
   switch a.Sign() {
   case -1: c.Neg(a)
-  case 0: c.AllocForOne(a); c.Reset()
+  case 0:
+    if x := a.GetFloat64(); x != x {
+      // NaN is neither negative, zero nor positive
+      c.Set(a)
+    } else {
+      c.AllocForOne(a); c.Reset()
+    }
   case 1: c.Set(a)
   }
   return c
